@@ -81,10 +81,12 @@ variable (c : Ctx) (m : Str → Bool) (hre : c.cfg.re = some m) (hrfn : c.rfn = 
   (hempty : m [] = false)
 include hre hrfn hns hempty
 
+omit hns in
 theorem genericMode_K (nkp : List Str) (a : J) (hn : nkp.any m = false) :
     c.applyMode (c.genericMode false nkp a) a = a := by
   cases a <;> simp only [genericMode] <;> (try split) <;> simp [dollarMode, hrfn, scalar_unmatched c m hre nkp _ hn]
 
+omit hns in
 theorem pScalarMode_K (kp : List Str) (a : J) (hn : kp.any m = false) :
     c.applyMode (c.pScalarMode false kp a) a = a := by
   have h0 : ([[]] : List Str).any m = false := by simp [hempty]
@@ -93,7 +95,7 @@ theorem pScalarMode_K (kp : List Str) (a : J) (hn : kp.any m = false) :
 
 theorem pValScalarMode_K (kp : List Str) (k : Str) (op : Option Meta) (a : J) (hn : (kp ++ [k]).any m = false) :
     c.applyMode (c.pValScalarMode false kp k op a) a = a := by
-  have hg := genericMode_K c m hre hrfn hns hempty (kp ++ [k]) a hn
+  have hg := genericMode_K c m hre hrfn hempty (kp ++ [k]) a hn
   unfold pValScalarMode
   split
   · simp [hns, hg]
@@ -114,6 +116,7 @@ theorem subValScalarMode_K (k : Str) (nkp : List Str) (sk : Str) (sm : Option Me
   · cases a <;> simp [hs]
   · cases a <;> simp [hs, hrfn]
 
+omit hns in
 theorem aElemScalarMode_K (pk : Str) (kp : List Str) (a : J) (hn : (kp ++ [pk]).any m = false) :
     c.applyMode (c.aElemScalarMode false pk false kp a) a = a := by
   rw [any_append_single, Bool.or_eq_false_iff] at hn
@@ -121,6 +124,7 @@ theorem aElemScalarMode_K (pk : Str) (kp : List Str) (a : J) (hn : (kp ++ [pk]).
   cases a <;> simp only [aElemScalarMode] <;> (try split) <;>
     simp [dollarMode, hrfn, reMatchesAny, hre, hn.1, scalar_unmatched c m hre [pk] _ h1]
 
+omit hns in
 theorem qValScalarMode_K (co : Option Meta) (nkp : List Str) (a : J) (hn : nkp.any m = false) :
     c.applyMode (c.qValScalarMode false co nkp a) a = a := by
   cases a <;> simp only [qValScalarMode] <;> (repeat' split) <;>
@@ -136,15 +140,15 @@ theorem selRel_run (c : Ctx) (m : Str → Bool) (hre : c.cfg.re = some m) (hrfn 
   · -- (K): nothing matches => unchanged
     intro hS hok hn hsel
     cases s with
-    | P S kp => simp only [searchOf] at hS; subst hS; exact pScalarMode_K c m hre hrfn hns hempty kp a hn
+    | P S kp => simp only [searchOf] at hS; subst hS; exact pScalarMode_K c m hre hrfn hempty kp a hn
     | PVal S kp k op => simp only [searchOf] at hS; subst hS; exact pValScalarMode_K c m hre hrfn hns hempty kp k op a hn
-    | Facet => exact pScalarMode_K c m hre hrfn hns hempty [] a rfl
-    | FacetStage => exact pScalarMode_K c m hre hrfn hns hempty [] a rfl
+    | Facet => exact pScalarMode_K c m hre hrfn hempty [] a rfl
+    | FacetStage => exact pScalarMode_K c m hre hrfn hempty [] a rfl
     | SubVal S k nkp sk sm => simp only [searchOf] at hS; subst hS; exact subValScalarMode_K c m hre hrfn hns hempty k nkp sk sm a hn
     | AElem S pk sel kp =>
       simp only [searchOf] at hS; subst hS; simp only [selOf] at hsel; subst hsel
-      exact aElemScalarMode_K c m hre hrfn hns hempty pk kp a hn
-    | QVal S co k nkp => simp only [searchOf] at hS; subst hS; exact qValScalarMode_K c m hre hrfn hns hempty co nkp a hn
+      exact aElemScalarMode_K c m hre hrfn hempty pk kp a hn
+    | QVal S co k nkp => simp only [searchOf] at hS; subst hS; exact qValScalarMode_K c m hre hrfn hempty co nkp a hn
     | NsMember => simp [isNsMember] at hok
     | _ => cases a <;> rfl
   · -- (R): something matches => forced redaction
